@@ -48,6 +48,13 @@ STEP_TIMEOUT = 20.0
 # extends it with '.<something>' (the shape of rotated log names): their db
 # files share a prefix but are different files
 KEYNAMES = {0: '0', 1: 'log', 2: 'log.1'}
+# further DISTINCT keys, used only by the fixed sequential programs below:
+# pairs that differ as strings but look alike (composed / decomposed accent,
+# fullwidth / superscript digit vs ASCII digit - equal after unicode
+# normalisation -, letter case).  Distinct keys are distinct registers.
+KEYNAMES.update({3: 'caf\u00e9', 4: 'cafe\u0301', 5: 'node\uff11',
+                 6: 'node1', 7: 'm\u00b2', 8: 'm2', 9: 'Log'})
+LOOKALIKE = [(3, 4), (5, 6), (7, 8), (9, 1)]
 KEYIDS = {v: k for k, v in KEYNAMES.items()}
 
 
@@ -816,6 +823,18 @@ FIXED_SEQ = [
 ]
 
 
+def _lookalike_prog(a, b):
+    """ every way the two keys could leak into each other """
+    return [('get', a), ('get', b), ('set', a, 1), ('get', b), ('set', b, 2),
+            ('get', a), ('get', b), ('unset', a), ('get', b), ('get', a),
+            ('bulk', [(a, 3), (b, 4)]), ('get', a), ('unset', b), ('get', a),
+            ('get', b)]
+
+
+FIXED_SEQ += [_lookalike_prog(a, b) for a, b in LOOKALIKE] + \
+    [_lookalike_prog(b, a) for a, b in LOOKALIKE]
+
+
 def sequential(chk):
     from searchkit.utils import MPCacheSimple
     rng = chk.rng
@@ -867,7 +886,10 @@ def sequential(chk):
         kind = 'op-raises' if [2] in wants[i] else 'wrong-value'
         chk.violation(f"sequential {kind}",
                       {'program': progs[i], 'impl_results': wants[i],
-                       'spec_results': v, 'errors': texts[i]}, witness=True)
+                       'spec_results': v, 'errors': texts[i],
+                       'key_names': {str(k): ascii(n)
+                                     for k, n in KEYNAMES.items()}},
+                      witness=True)
     for i, v in mm:
         if i in spec_bad or i < 0:
             continue
